@@ -10,6 +10,7 @@ int main(int argc, char** argv) {
         int v1 = 0, v2 = 0; bool r1 = b.try_reserve(v1), r2 = b.try_reserve(v2);
         if (r1 && r2) { std::printf("REPRODUCED class=double-reservation buffer_node<int> holding 100,200: two try_reserve calls were both granted (%d and %d) while the first reservation was still open; the second consume then destroys an item that was never delivered\n", v1, v2); return 0; }
         if (r1) b.try_consume();
+        g.wait_for_all();
     }
     {   // function_node concurrency limit and conservation
         for (size_t limit : {1u, 2u, 3u}) {
